@@ -1752,8 +1752,9 @@ class Parameter(_ParameterBase):
             elif not obj._param__private.initialized:
                 _old = obj._param__private.values.get(self.name, self.default)
                 obj._param__private.values[self.name] = val
-            elif obj._param__private.unlocked:
-                # inside edit_constant(obj)
+            elif obj._param__private.unlocked and self.name in obj._param__private.unlocked_params:
+                # inside edit_constant(obj), one of the constants it found
+                # (not one that was made constant since)
                 _old = obj._param__private.values.get(self.name, self.default)
                 obj._param__private.values[self.name] = val
             else:
@@ -1836,7 +1837,8 @@ class Parameter(_ParameterBase):
         """
         if self.readonly:
             raise TypeError("Read-only parameter '%s' cannot be modified" % self.name)
-        if self.constant and obj._param__private.initialized and not obj._param__private.unlocked:
+        private = obj._param__private
+        if self.constant and private.initialized and not (private.unlocked and self.name in private.unlocked_params):
             # A reference would keep rebinding the constant whenever its
             # source changes, whatever it resolves to at the moment
             if ref is not None or val is not obj._param__private.values.get(self.name, self.default):
